@@ -22,6 +22,7 @@ import (
 	"strings"
 	"sync"
 	"testing"
+	"time"
 
 	"pgregory.net/rapid"
 )
@@ -98,6 +99,7 @@ type Collector struct {
 	knownSample map[string]json.RawMessage
 	notes       []string
 	units       map[string]int64
+	lastFlush   time.Time
 }
 
 var (
@@ -125,6 +127,7 @@ func Get(property string) *Collector {
 		knownSeen:   map[string]int64{},
 		knownSample: map[string]json.RawMessage{},
 		units:       map[string]int64{},
+		lastFlush:   time.Now(),
 	}
 	if c.Tier == "" {
 		c.Tier = "quick"
@@ -314,6 +317,12 @@ func (c *Collector) Record(unit string, cs interface{}, out Outcome) bool {
 	}
 	c.evals += n
 	c.units[unit] += n
+	// Keep the side file fresh: a process that is killed at its time
+	// budget still leaves its statistics behind.
+	if c.out != "" && time.Since(c.lastFlush) > 10*time.Second {
+		c.lastFlush = time.Now()
+		go c.Flush()
+	}
 	for _, cl := range out.Classes {
 		c.classes[unit+":"+cl]++
 	}
